@@ -519,3 +519,57 @@ func GenPlain(t *rapid.T, label string, o PlainOpts) *Hello {
 
 // GenBytes exposes the cheap byte generator.
 func GenBytes(t *rapid.T, label string, n int) []byte { return genBytes(t, label, n) }
+
+// TwoLabels turns a generated host name into one with at least two labels
+// (crypto/tls only accepts such public names), keeping its length when possible.
+func TwoLabels(name string) string {
+	if strings.Contains(name, ".") {
+		return name
+	}
+	if len(name) >= 3 {
+		b := []byte(name)
+		b[len(b)/2] = '.'
+		if b[len(b)/2-1] == '-' {
+			b[len(b)/2-1] = 'a'
+		}
+		if b[len(b)/2+1] == '-' {
+			b[len(b)/2+1] = 'a'
+		}
+		return string(b)
+	}
+	return name + ".x"
+}
+
+// NameOfLen draws a valid multi-label host name of exactly n bytes (n >= 3).
+func NameOfLen(t *rapid.T, label string, n int) string {
+	var b []byte
+	i := 0
+	for len(b) < n {
+		rem := n - len(b)
+		max := 63
+		if rem < max {
+			max = rem
+		}
+		l := GenLabel(t, fmt.Sprintf("%s_l%d", label, i), max)
+		i++
+		if rem-len(l) == 1 { // would need a lone trailing dot
+			if len(l) > 1 {
+				l = l[:len(l)-1]
+				if l[len(l)-1] == '-' {
+					l = l[:len(l)-1] + "a"
+				}
+			} else {
+				l = l + "a"
+			}
+		}
+		b = append(b, l...)
+		if len(b) < n {
+			b = append(b, '.')
+		}
+	}
+	s := string(b[:n])
+	if !strings.Contains(s, ".") {
+		return TwoLabels(s)
+	}
+	return s
+}
